@@ -219,7 +219,7 @@ def boundary_cases():
 
 def generate(rng, tier):
     big = tier == 'thorough'
-    n = 60000 if big else 2400
+    n = 60000 if big else 2000
     cases = boundary_cases()
     for i in range(n):
         r = i % 10
